@@ -111,6 +111,16 @@ static inline void yk_track(void* p, uint64_t n, uint64_t al)
     yk_live++; yk_news++;
 }
 static inline void yk_new_typed(void* p, uint64_t n, uint64_t al) { YK_ASSUME(p != 0); yk_track(p, n, al); }
+#ifndef YK_ARR_CAP
+#define YK_ARR_CAP 4       /* element capacity of a typed array obtained through operator new(n * sizeof(T)) (std::vector storage) */
+#endif
+static inline void yk_new_array(void* p, uint64_t n, uint64_t al, uint64_t cap_bytes)
+{
+    YK_ASSERT(n <= cap_bytes, "bound: array allocation larger than YK_ARR_CAP elements");
+    YK_ASSUME(n <= cap_bytes);
+    YK_ASSUME(p != 0);
+    yk_track(p, n, al);
+}
 static inline void* yk_new(uint64_t n, uint64_t al)
 {
     YK_ASSERT(n <= YK_VAL_CAP, "bound: untyped allocation larger than YK_VAL_CAP");
@@ -146,6 +156,9 @@ static inline void yk_delete(void* p, uint64_t n, uint64_t al, int how)
 }
 
 /* ---- string/memory helpers with explicit small bounds */
+#ifndef YK_MEMCMP_CAP
+#define YK_MEMCMP_CAP 24
+#endif
 static inline int32_t yk_memcmp(const uint8_t* a, const uint8_t* b, uint64_t n)
 {
     if (n <= 8) {   /* the 8-byte slice compares: loop-free, reads only bytes < n */
@@ -160,7 +173,8 @@ static inline int32_t yk_memcmp(const uint8_t* a, const uint8_t* b, uint64_t n)
         if (n > 7) { x |= (uint64_t)a[7]; y |= (uint64_t)b[7]; }
         return x < y ? -1 : (x > y ? 1 : 0);
     }
-    for (uint64_t i = 0; i < n; i++) { if (a[i] != b[i]) return a[i] < b[i] ? -1 : 1; }
+    if (n > YK_MEMCMP_CAP) { YK_ASSERT(0, "bound: memcmp longer than YK_MEMCMP_CAP"); YK_ASSUME(0); }
+    for (unsigned i = 0; i < YK_MEMCMP_CAP; i++) { if (i >= n) break; if (a[i] != b[i]) return a[i] < b[i] ? -1 : 1; }
     return 0;
 }
 static inline int32_t yk_strcmp(const char* a, const char* b)
@@ -182,6 +196,21 @@ static inline const uint8_t* yk_memchr(const uint8_t* a, uint32_t c, uint64_t n)
 }
 static inline void yk_memcpy(void* d, const void* s, uint64_t n) { if (n) memcpy(d, s, n); }
 static inline void yk_memmove(void* d, const void* s, uint64_t n) { if (n) memmove(d, s, n); }
+#ifndef YK_MEMCPY_CAP
+#define YK_MEMCPY_CAP 24
+#endif
+static inline void yk_memcpy_v(void* d, const void* s, uint64_t n)
+{
+    if (n > YK_MEMCPY_CAP) { YK_ASSERT(0, "bound: variable-size memcpy larger than YK_MEMCPY_CAP"); YK_ASSUME(0); }
+    for (unsigned i = 0; i < YK_MEMCPY_CAP; i++) if (i < n) ((uint8_t*)d)[i] = ((const uint8_t*)s)[i];
+}
+static inline void yk_memmove_v(void* d, const void* s, uint64_t n)
+{
+    uint8_t tmp[YK_MEMCPY_CAP];
+    if (n > YK_MEMCPY_CAP) { YK_ASSERT(0, "bound: variable-size memmove larger than YK_MEMCPY_CAP"); YK_ASSUME(0); }
+    for (unsigned i = 0; i < YK_MEMCPY_CAP; i++) if (i < n) tmp[i] = ((const uint8_t*)s)[i];
+    for (unsigned i = 0; i < YK_MEMCPY_CAP; i++) if (i < n) ((uint8_t*)d)[i] = tmp[i];
+}
 static inline void yk_memset(void* d, uint32_t c, uint64_t n) { if (n) memset(d, (int)c, n); }
 
 /* ---- RTTI: Itanium ABI layout, single inheritance.  vptr[-1] is the type_info of the dynamic type;
@@ -258,6 +287,7 @@ void f_yk_on_sleep(uint32_t n);
 #else
 static inline void yk_on_sleep(uint32_t n) { (void)n; }
 #endif
+static inline void yk_layers_reset(void) { yk_layers = 0; }
 static inline void yk_stop(void) { YK_ASSUME(0); }
 static inline void yk_hook(int kind, const void* p)
 {
@@ -300,6 +330,7 @@ extern uint32_t yk_layers;
 extern uint32_t yk_sleeps;
 static inline void yk_pause(void) { }
 static inline void yk_sleep(void) { }
+static inline void yk_layers_reset(void) { yk_layers = 0; }
 static inline void yk_stop(void) { YK_ASSUME(0); }
 static inline void yk_hook(int kind, const void* p) { yk_watch_note(kind, p); }   /* outside thread entries: atomic */
 #ifndef YK_MAX_SLEEPS
